@@ -32,6 +32,17 @@ Theorem limit_exact_vm_iterators :
 Proof. exact vm_iter_exact_proof. Qed.
 Print Assumptions limit_exact_vm_iterators.
 
+(* ... and that room is exactly what they then fill: an iterator that stores p slots (p counted in exec.c: 2 for
+   arrays, integer ranges, integer lists, string sets and text-string sets, 3 for dictionaries) goes ahead iff
+   sp + p <= capacity, so none of its stores lands outside the stack buffer and no store that fits is refused *)
+Theorem limit_exact_vm_iterator_room :
+  Forall2 (fun chk p => forall sp cap, vm_iter_accepts chk sp cap = true <-> sp + p <= cap) vm_iter_checks vm_iter_pushes.
+Proof. exact vm_iter_room_exact_proof. Qed.
+Print Assumptions limit_exact_vm_iterator_room.
+
+Example vm_iterator_pushes_inhabited : vm_iter_pushes <> [] /\ Forall (fun p => 2 <= p) vm_iter_pushes.
+Proof. exact vm_iter_pushes_example. Qed.
+
 (* regular expressions: RE_MAX_SPLIT_ID split instructions, RE_MAX_FIBERS live fibers, repeat bound RE_MAX_RANGE *)
 Theorem limit_exact_splits : forall n : N, accepts_splits n = true <-> Z.of_N n <= RE_MAX_SPLIT_ID.
 Proof. exact limit_exact_splits_proof. Qed.
